@@ -37,7 +37,7 @@ IMPORTS = {
          'and leaked (c01-10)'),
     ],
     'C02': [
-        ('C03', ['C03.a', 'C03.b', 'C03.c', 'C03.h'],
+        ('C03', ['C03.a', 'C03.b', 'C03.c', 'C03.d', 'C03.h'],
          'a line cut by a chunk boundary is reported whole only if the look-ahead defers, the bytes read so far are set aside (DATA_BUFFER) and '
          'appended at the fill offset; otherwise the field is truncated or an empty line is invented (c02-1, c02-2, c02-5, c02-8)'),
         ('C13', ['C13.b', 'C13.e'],
@@ -55,8 +55,8 @@ IMPORTS = {
          'row by row of the documented table (c02-15: port of the Host field attached to the host of the target)'),
     ],
     'C03': [
-        ('C06', ['C06.b', 'C06.f'],
-         'delivered body bytes are the same for every cut: a body state takes min(bytes still missing, bytes in this chunk) and moves every '
+        ('C06', ['C06.b', 'C06.f', 'C06.j'],
+         'delivered body bytes (and the reported lengths) are the same for every cut: a consumed framing line is counted by its consolidated length; delivered body bytes are the same for every cut: a body state takes min(bytes still missing, bytes in this chunk) and moves every '
          'cursor by exactly that amount (c03-12: the declared total passed where the remainder belongs)'),
         ('C14', ['C14.a', 'C14.c', 'C14.d', 'C14.h', 'C14.j'],
          'multipart parameters are part of the reported transaction: the CR / boundary bytes set aside at the end of a chunk are replayed or '
@@ -78,10 +78,13 @@ IMPORTS = {
         ('C06', ['C06.k'],
          'response i+1 begins where the body of response i ends: a chunk-length line that is cut short at a chunk extension takes chunk data '
          'from inside the line and the next response is swallowed into the body (c04-16)'),
+        ('C05', ['C05.a', 'C05.b'],
+         'exactly N transactions are reported: each completion function delivers its callback and detaches the transaction, so that '
+         'TRANSACTION_COMPLETE fires for every transaction (c04-18: a refused CONNECT completed through the partial helper is never reported)'),
         ('C09', ['C09.c'],
          'the DATA_OTHER hand-over the statement relies on: the stream state the driver stores and returns after a state function asked for the '
          'other direction (c04-15: the two DATA_OTHER arms merged, the request side never reports it)'),
-        ('C16', ['C16.d', 'C16.e', 'C16.j'],
+        ('C16', ['C16.d', 'C16.e', 'C16.j', 'C16.l', 'C16.m'],
          'the documented DATA_OTHER hand-over is part of the statement: the response side yields at the end of the CONNECT transaction exactly when '
          'the request side waits on it, and only a refused CONNECT releases the request side - otherwise the response parser runs ahead of a '
          'request that has not been read yet and attaches its response to a request-less transaction (c04-12)'),
@@ -115,6 +118,9 @@ IMPORTS = {
          'a Content-Length delimited body is the entity body only if the field value is cut at its last non-blank byte (c06-10: "12 " read as 1)'),
     ],
     'C07': [
+        ('C10', ['C10.e'],
+         'a decompressor belongs to one message: the one left over from the previous message is destroyed before the next body is set up, otherwise '
+         'the next body is fed to a decoder of the wrong coding or in a used state (c07-20)'),
         ('C06', ['C06.d'],
          'the end-of-body marker is the decompressor\'s end-of-data call: without it the tail of the payload stays in the output buffer (c07-6)'),
         ('C16', ['C16.i'],
@@ -175,8 +181,8 @@ IMPORTS = {
         ('C01', ['C01.m'], 'identical for every chunking: a piece kept for the next chunk is a copy, not a view of the caller\'s buffer (c15-8)'),
     ],
     'C16': [
-        ('C03', ['C03.b', 'C03.c', 'C03.h'],
-         'no request byte skipped or parsed twice: the probed line is read through the consolidated view and the carry buffer restarts the consumer '
+        ('C03', ['C03.b', 'C03.c', 'C03.e', 'C03.h', 'C03.i'],
+         'no request byte skipped or parsed twice (c16-18, c16-20: the carry buffer released by a clean-up, a peeked line un-read without cutting the buffer back): the probed line is read through the consolidated view and the carry buffer restarts the consumer '
          'position on every append (c16-4, c16-8, c16-10)'),
         ('C05', ['C05.g'],
          'callbacks of the CONNECT transaction get the bytes of the CONNECT message only: the header-data receiver is closed when the HEADERS '
